@@ -40,6 +40,8 @@ type Site struct {
 
 	LHS   ast.Expr
 	RHS   ast.Expr    // nil for tuple assignment / inc-dec
+	Tuple ast.Expr    // the single right-hand side of a tuple assignment
+	TupleIdx int
 	Field *types.Var  // LHS (or its map/slice base) is a selector of this struct field
 	Index bool        // LHS is base[index] where base is Field
 	Local types.Object // LHS is this local variable / parameter
@@ -150,6 +152,8 @@ func nodeSites(b *Block, idx int, n ast.Node, info *types.Info) []*Site {
 				store(l, rhs, x.Tok, x.End())
 				if len(x.Lhs) != len(x.Rhs) {
 					out[len(out)-1].RHS = nil
+					out[len(out)-1].Tuple = rhs
+					out[len(out)-1].TupleIdx = i
 					out[len(out)-1].Call, _ = ast.Unparen(rhs).(*ast.CallExpr)
 				}
 			}
